@@ -172,7 +172,7 @@ def range_name_history(ctx, L, tname):
                 check_value(ctx, L, tname, v)
 
 
-CONST_SOURCES = ["TPM_ALG", "TPM_ST", "TPM_SU", "TPM_CAP", "TPM_CC", "TPM_SE", "TPM_HT", "TPM_ECC_CURVE"]
+CONST_SOURCES = ["TPM_ALG", "TPM_ST", "TPM_SU", "TPM_CAP", "TPM_CC", "TPM_SE", "TPM_HT", "TPM_ECC_CURVE", "TPM_RH", "TPM_RS"]
 
 
 def from_typed_constants(ctx, L, tname):
@@ -189,14 +189,16 @@ def from_typed_constants(ctx, L, tname):
         S = O.lib_type(src)
         # only small constants: a plain-range type looks a *typed* argument up by iterating its range (`x in range(...)` is
         # linear for non-int x), so e.g. UINT32(TPM_RH.OWNER) would take minutes - slow, but not wrong
-        members = [m for m in L.prim(src).get("members", []) if "value" in m and lo <= m["value"] <= hi and 0 <= m["value"] <= 0xFFFF]
+        # (types whose set is given by enum members / named ranges look values up directly and take any constant)
+        slow = any(it.get("kind") == "range" for it in p["valid_items"])
+        members = [m for m in L.prim(src).get("members", []) if "value" in m and lo <= m["value"] <= hi and (0 <= m["value"] <= 0xFFFF or not slow)]
         for m in members[:: max(1, len(members) // 6)]:
             v = m["value"]
             c = getattr(S, m["name"], None)
             if c is None:
                 continue
             payload = {"type": tname, "value": v, "from": f"{src}.{m['name']}"}
-            r = ctx.guard(lambda: (lambda x: (int(x), bytes(x.to_bytes()), x == v, hash(x)))(T(c)), f"C16:from-typed:{p['kind']}", payload)
+            r = ctx.guard(lambda: (lambda x: (int(x), bytes(x.to_bytes()), x == v, hash(x), x.is_valid()))(T(c)), f"C16:from-typed:{p['kind']}", payload)
             if r is None:
                 return
             n += 1
@@ -204,6 +206,9 @@ def from_typed_constants(ctx, L, tname):
             want = v.to_bytes(w, "big", signed=p["signed"])
             if r[0] != v or r[1] != want or r[2] is not True or r[3] != hash(v):
                 ctx.problem(f"C16:from-typed:{p['kind']}", f"{tname}({src}.{m['name']}) has int {r[0]}, bytes {r[1].hex()} (expected {v}, {want.hex()}), == {r[2]}", payload)
+                return
+            if r[4] is not L.contains(tname, v):
+                ctx.problem(f"C16:from-typed:is_valid:{p['kind']}", f"{tname}({src}.{m['name']}).is_valid() is {r[4]!r}, but {v:#x} {'belongs' if L.contains(tname, v) else 'does not belong'} to the declared set of {tname}", payload)
                 return
             check_value(ctx, L, tname, v)
     ctx.count("typed-from-typed", n)
